@@ -35,7 +35,16 @@ def generate(seed, stratum, tier):
     if not any(o[0] == 'read' for o in sc['ops']):
       sc['ops'].append(['read'])
     return sc
-  sc = cc.gen_chart_scenario(rng, combos=COMBOS, ops=('ev', 'read'), weights=(6, 1), nops=(4, 30), flags=False)
+  combo = rng.choice(COMBOS)
+  kw, ops, weights = {}, ('ev', 'read'), (6, 1)
+  if combo[0] in ('queued', 'ao') and rng.random() < 0.5:
+    # handlers (also entry, exit and init actions) post and set aside events while the step is being recorded
+    kw = {'fx_rate': rng.choice([0.2, 0.4]), 'fx_ops': ('post_fifo', 'defer', 'defer_new', 'recall')}
+    if combo[0] == 'queued':
+      ops, weights = ('ev', 'read', 'defer', 'recall', 'rtc'), (6, 1, 1, 1, 2)
+  sc = cc.gen_chart_scenario(rng, combos=[combo], spec_kw=kw, ops=ops, weights=weights, nops=(4, 30), flags=False)
+  if combo[0] == 'queued' and rng.random() < 0.2:
+    sc['pre_start'] = [['defer', rng.choice(sc['spec']['signals'])]]
   if rng.random() < 0.3:
     sc['rings'] = {'trc': 5}
   return sc
